@@ -44,6 +44,7 @@ type c16FCase struct {
 	Max    int      `json:"max_message_size"`
 	Chunks []string `json:"chunks_hex"`
 	Note   string   `json:"note"`
+	Valid  int      `json:"valid_frames"` // routable frames in the stream (envelope cases only: -1 = not counted)
 }
 
 // ---------------------------------------------------------------------------------------------
@@ -215,6 +216,7 @@ func c16GenCase(rng *Rng) c16FCase {
 	}
 	var stream []byte
 	note := ""
+	nvalid := 0
 	valid := func() []byte { // a valid frame that gets routed
 		f := append([]byte(nil), c16Probe()...)
 		binary.BigEndian.PutUint64(f[8:16], rng.U64())
@@ -223,6 +225,7 @@ func c16GenCase(rng *Rng) c16FCase {
 	if rng.Chance(1, 2) {
 		for i := rng.Intn(3); i >= 0; i-- {
 			stream = append(stream, valid()...)
+			nvalid++
 		}
 	}
 	types := []byte{101, 102, 103, 104, 105, 106, 107, 121, 122, 123, 124, 129, 130, 181, 182, 183, 184, 185, 186, 199, 200, 201, 202, 203, 0, 255}
@@ -290,6 +293,9 @@ func c16GenCase(rng *Rng) c16FCase {
 		declared := uint32(len(inner))
 		if note == "z-size-mismatch" {
 			declared = uint32(rng.Intn(70000))
+			if declared == uint32(len(inner)) {
+				declared++
+			}
 		}
 		binary.BigEndian.PutUint32(dl[:], declared)
 		f = append(f, dl[:]...)
@@ -325,6 +331,13 @@ func c16GenCase(rng *Rng) c16FCase {
 	if rng.Chance(1, 3) {
 		stream = append(stream, valid()...)
 		note += "+valid-after"
+		nvalid++
+	}
+	if strings.HasPrefix(note, "z-valid") {
+		nvalid++ // the wrapped frame itself
+	}
+	if !strings.HasPrefix(note, "z-") || strings.HasPrefix(note, "z-tiny") {
+		nvalid = -1
 	}
 	var chunks []string
 	for _, ch := range c12Cut(rng, stream) {
@@ -332,7 +345,7 @@ func c16GenCase(rng *Rng) c16FCase {
 			chunks = append(chunks, hexs(ch))
 		}
 	}
-	return c16FCase{Max: max, Chunks: chunks, Note: note}
+	return c16FCase{Max: max, Chunks: chunks, Note: note, Valid: nvalid}
 }
 
 // c16Predict: the model's outcome class for a case: "crash", "closed" (reader error or recovered
@@ -466,6 +479,14 @@ func c16FramesPart(c *Ctx) {
 				r.Violation("C16-frames-stuck", "the victim link stays open but no longer routes a valid frame", cs)
 			}
 			c16CheckAlloc(c, cs, g)
+			// hostile envelopes (size mismatch, garbage, unknown compression id) are ignored, a well-formed
+			// one is unpacked and routed; the valid frames around them are routed as usual
+			if cs.Valid >= 0 && class == "open" && (cs.Max == 0 || cs.Max > 200) {
+				if n, _ := strconv.Atoi(g["routed"]); n != cs.Valid {
+					r.Violation("C16-frames-envelope", fmt.Sprintf("stream with %d routable frames around a hostile/valid envelope produced %d routes", cs.Valid, n), cs)
+				}
+				r.Count("frames:envelope-route-count-checked")
+			}
 			if pred[next+i] == "crash" {
 				r.Disagree("frames-class", "model predicts an unrecovered panic, the process survived", cs)
 			} else if pred[next+i] != class && !strings.HasPrefix(cs.Note, "z-") {
